@@ -4,6 +4,8 @@ import json, os
 V = os.path.dirname(os.path.dirname(os.path.abspath(__file__)))
 TECH = "machine-checked proof in Coq 8.16 over a hand-written executable model; model tied to the current source by a differential correspondence run (Go harness via -overlay vs vm_compute of the model) and, where noted, go/ast translators; property monitor evaluated in Coq on implementation traces"
 CLAIMED = {
+ "C20": ("A complete executable model of the lexer, dispenser, parser, macro/snippet/import and environment expansion; kernel-checked for every input, file set and environment: the reader never panics (C20_no_panic), every accepted tree has only well-formed names and no macro/snippet declaration at any depth (C20_post_*), environment expansion leaves valid names alone; a generated theorem shows the model accepts the current shipped configuration files; model and parser.Read are compared (trees with line numbers, canonical print, re-read) on corpus, grammar-generated, mutated and random inputs. Partial: the print/parse round trip and fuel sufficiency (termination) are validated on model and implementation by the run, not yet proved in general.",
+         "Trusted: Coq kernel, Go harness (generator, canonical printer mirrored in the model), hand-written model validated differentially, Unicode classification and file system as tables/maps, exponential import expansion excluded from generation (known finding). `pipeline validation` of the shipped files is not exercised."),
  "C13": ("authenticated <-> spec and refuse <-> spec for record sets and chains of any size with the TLSA matcher and the X.509 verifier abstract, neutrality of unusable records, absence of panics, TA needing a matching CA certificate, the CheckConn error mapping and the AD-only / fail-closed behaviour of the discovery are kernel-checked; verifyDANE, CheckConn and discoverTLSA are compared with the model on generated real certificate chains / record sets and on 140 DNS zone shapes served by a mock DNSSEC server.",
          "Trusted: Coq kernel, Go harness, oracle tables recorded from miekg TLSA.Verify and crypto/x509 (all root subsets), mock DNS server semantics for the discovery view; TLS handshake internals are not modelled."),
  "C07": ("pass <-> aligned passing identifier, temperror <-> undecided, none when not evaluated, action = published policy, fail-closed on temporary DNS failure and bad From never passing are kernel-checked for result lists of any length and any public-suffix list; the model (verdict, action, direct EvaluateAlignment) is compared with the real verifier + checkRunner.applyResults on a structured sweep and generated cases.",
@@ -35,7 +37,7 @@ m = {"version": 1, "setup_cmd": "bin/setup",
      "engines": [
         {"name": "coq", "path": "coq/", "serves_properties": sorted(CLAIMED), "kind_free_text": "Coq 8.16.1 theories: executable models, lemmas, property theorems (Props/Cnn.v), correspondence and monitor definitions"},
         {"name": "goharness", "path": "harness/", "serves_properties": sorted(CLAIMED), "kind_free_text": "Go test files compiled into /repo's packages with -overlay; drive the real code and print cases as Coq terms"},
-        {"name": "translators", "path": "tools/", "serves_properties": [x for x in ["C16"] if x in CLAIMED], "kind_free_text": "go/ast translators regenerating Coq obligations from the current source"}],
+        {"name": "translators", "path": "tools/", "serves_properties": [x for x in ["C16", "C20"] if x in CLAIMED], "kind_free_text": "go/ast translators regenerating Coq obligations from the current source"}],
      "checks": checks,
      "not_applicable": [{"property_id": p["id"], "reason": NA.get(p["id"], ORDER_NOTE)} for p in props if p["id"] not in CLAIMED],
      "notes": "All checks: bin/check Cnn --tier quick|thorough. See DESIGN.md."}
